@@ -621,6 +621,9 @@ def extendLoop (guard : Bool) (sid : Nat) : Nat → State → Loc → Nat → Ex
           match readLoc σ l with
           | .error e => .error e
           | .ok (.obj id) =>
+            -- a property that is this object itself would make it contain itself: the harness has refused such a
+            -- call before issuing it (`anyReaches`), so this branch is never taken in a checked history
+            if handleOf x = some id then .error .cyclic else
             match indexKey guard σ l id k with
             | .error e => .error e
             | .ok (σ1, t) =>
